@@ -740,8 +740,13 @@ func TestDiscv4Datagrams(t *testing.T) {
 			pos := rapid.IntRange(refMacSize, len(dgram)-1).Draw(t, "pos")
 			dgram[pos] ^= byte(rapid.IntRange(1, 255).Draw(t, "xor"))
 			copy(dgram, refKeccak(dgram[refMacSize:]))
-			if f, _, e := refOpen(dgram); e == nil && f == idOf(key) {
-				fail("harness: tampered datagram still recovers to the original key")
+			if f, b, e := refOpen(dgram); e == nil && f == idOf(key) {
+				// only the compressed-key flag of the recovery id can be flipped without
+				// changing the recovered key; the signed content is then untouched
+				if pos != refHeadSize-1 || !bytes.Equal(b, validBody) {
+					fail("harness: tampered datagram still recovers to the original key")
+				}
+				ev.Label("sig-flag-malleable")
 			}
 			ev.Label("rehashed-tamper")
 		case "mutate-resigned":
